@@ -346,6 +346,21 @@ def run(ctx):
         c = _case(rng)
         mode = ["exp", "rk4"][i % 2]
         which = ["R", "P"][(i // 2) % 2]
+        if mode == "exp" and (i // 4) % 3 == 0:
+            # nearly degenerate propagator eigenvalues: |gap x dt| from 1e-13 to 1e-5, deep inside the series side of the scaling
+            # function (1-exp(-z))/z that the exponential moment integrator applies (C20) - where forming 1-exp(-z) by subtraction
+            # loses every digit
+            N_ = c["N"]
+            levels = np.concatenate([[0.0], np.cumsum(10 ** rng.uniform(-13, -5, size=N_ - 1))]) / c["dt"]
+            c["H0"] = np.diag(levels)
+            c["H1"] = np.diag(levels)
+            c["d0"] = np.zeros_like(c["d0"])
+            c["d1"] = np.zeros_like(c["d1"])
+            if which == "P":
+                # start from zero momentum moments: what comes out IS the source term times the scaling function, compared to 1e-11
+                c["delP"] = np.zeros_like(c["delP"])
+                c["_strict"] = True
+            ctx.count("moment:nearly_degenerate_generator")
         a_ = {"case": c, "mode": mode, "which": which}
         ok_, obs_, req_, text_ = oracle_hermitian(a_)
         if "exception" in obs_:
@@ -377,8 +392,9 @@ def run(ctx):
                                             "impl_00": want[0, 0], "model_00": got[0, 0]})
         ctx.count("moment:%s:%s" % (which, mode))
         sc = float(np.max(np.abs(want))) + 1e-300
+        strict = bool(c.pop("_strict", False))
         if o[0] != "ok" or not allclose(np.concatenate([got.real.ravel(), got.imag.ravel()]),
-                                        np.concatenate([want.real.ravel(), want.imag.ravel()]), sc, rtol=1e-8):
+                                        np.concatenate([want.real.ravel(), want.imag.ravel()]), sc, rtol=1e-11 if strict else 1e-8):
             ctx.corr_mismatch("del%s.%s" % (which, mode), {"N": N, "dt": c["dt"]}, "model and implementation differ")
         a = {"case": c, "mode": mode, "which": which}
         ok, obs, req, text = oracle_hermitian(a)
